@@ -38,6 +38,14 @@ def confirm(v):
         else:
             t = '{{ %s(value=bumped_branch, length=%d) }}' % (fn, ex.get('length', 0))
         r = d.call(op='template', template=native.cps(t), vars={'bumped_branch': native.cps(val)}, **{'as': 'string'})
+        if 'panic' not in r and fn in ('hash', 'hash_int'):
+            # SipHash is uninterpreted in the symbolic run: look for a real value whose hash has the property the
+            # solver asked for (4096 candidates; a property rarer than that stays unconfirmed -> exit 2)
+            for k in range(4096):
+                val2 = '%s%d' % (val, k)
+                r2 = d.call(op='template', template=native.cps(t), vars={'bumped_branch': native.cps(val2)}, **{'as': 'string'})
+                if 'panic' in r2:
+                    return True, '%s with value=%r -> %s' % (t, val2, r2['panic'])
         return 'panic' in r, '%s with value=%r -> %s' % (t, val, r.get('panic', 'no panic'))
     if site == 'get_custom_value':
         key = ''.join(chr(c) for c in v['value'])
